@@ -109,6 +109,10 @@ package hub
 //@   ensures [C11] F2-others: forall j: string :: j != @CK() ==> (j in h.connections) == (j in old(h.connections)) && h.connections[j] == old(h.connections[j])
 //@   ensures [C11] F2-counter: handshakeCompleted && old(@CK() in h.connections) ==> !(@CK() in h.connectionAttemptCounter)
 //@   atcall RemoteSKIDisconnected [C11] F2-notify: $0 == @CK()
+// every reported connection end reaches the application, exactly once - whether or not the handshake had completed
+// (a transport failure on a completed connection is reported with handshakeCompleted == false: ReportConnectionError
+// moves the state to ERROR before it closes)
+//@   ensures [C11] F2-notified: callcount(RemoteSKIDisconnected) == 1
 //@   modifies *
 
 // ======================= connections: dial gate (C10), peer identity (C02), SHIP ID (C09) =======================
